@@ -20,6 +20,7 @@ FIXES = [  # (grep in subject, property, acceptable classes, witness name)
     ("re-registers with its current nick", "C18", "C18.registration-lines", "C18-stale-nick-on-reconnect-with-tracking"),
     ("no longer overlaps the previous Connect", "C18", "C18.registration-lines-of-the-dead-connection,C18.registration-lines", "C18-reconnect-overlaps-register-of-the-dead-connection"),
     ("even when send and the event loop are both blocked", "C07", "C07.disconnect-not-completed,C07.stall", "C07-cancel-while-send-and-event-loop-are-both-blocked"),
+    ("put into the new connection's output queue", "C07", "C07.stall,C07.disconnect-not-completed,C07.close-did-not-return", "C07-connect-blocked-on-a-full-queue-while-the-teardown-needs-the-mutex"),
     ("capability negotiation state no longer survives", "C19", "C19.req,C19.empty-intersection", "C19-reconnect-requests-capabilities-the-new-server-did-not-advertise"),
 ]
 only = sys.argv[1:]
